@@ -657,8 +657,9 @@ class IteratorQueue(IterableQueue[_ValueT]):
           logging.debug(
               'chainable: %s', f'"{self.name}" dequeue empty, got {len(result)}'
           )
-          # By the time the lock is re-acquired, the queue may have elements.
-          if not self._queue.empty():
+          # By the time the lock is re-acquired, the queue may have elements or
+          # the enqueuers may be done, both are notified only once.
+          if not self._queue.empty() or self.enqueue_done:
             continue
           if self._dequeue_lock.wait(timeout=self.timeout):
             continue
